@@ -43,7 +43,23 @@ def _init():
     signal.signal(signal.SIGALRM, _on_alarm)
 
 
+TOTAL = [0]
+HARNESS_ERRORS = []
+
+
+def _account(out):
+    TOTAL[0] += len(out)
+    for o in out:
+        if o and o.get('harness_error') and 'skipped: more than' not in str(o['harness_error']):
+            HARNESS_ERRORS.append(str(o['harness_error'])[-400:])
+    return out
+
+
 def run_all(scenarios, procs=None, chunksize=4):
+    return _account(_run_all(scenarios, procs, chunksize))
+
+
+def _run_all(scenarios, procs=None, chunksize=4):
     procs = procs or min(16, os.cpu_count() or 4)
     if len(scenarios) <= 2 or procs == 1:
         _init_local()
